@@ -33,6 +33,18 @@ def setup():
         print((log + log2)[-4000:])
         print("setup: harness build FAILED")
         return 1
+    # sanitizer variants (ThreadSanitizer for C14, AddressSanitizer for C11 / C13): prebuilt so that the first
+    # quick run does not pay for them
+    import cxxbuild
+    from props import c14 as _c14
+    okt, logt, _ = cxxbuild.build_variant("tsan", _c14.TSAN_FLAGS, ["bin/threads"])
+    asan = ("-std=gnu++17 -O1 -g -fsanitize=address -fno-omit-frame-pointer -DNDEBUG -DLIBFIVE_VERIF -fPIC -w "
+            "-DGIT_TAG='\"verif\"' -DGIT_REV='\"verif\"' -DGIT_BRANCH='\"verif\"'")
+    oka, loga, _ = cxxbuild.build_variant("asan", asan, ["bin/expr", "bin/handles"])
+    if not (okt and oka):
+        print((logt + loga)[-4000:])
+        print("setup: sanitizer variants FAILED")
+        return 1
     print("setup ok")
     return 0
 
